@@ -55,7 +55,7 @@ MODE_SITES = {"disabled": ("robot.disabledInit", "robot.disabledPeriodic"), "tel
 
 # =============================================================== generation
 
-def gen_config(rng, prop):
+def gen_config(rng, prop, tier="quick"):
     dyadic = rng.random() < 0.5
     ncomp = rng.choice([0, 1, 2, 2, 3, 3, 4, 5])
     if prop in ("C10",) and ncomp == 0:
@@ -120,7 +120,7 @@ def gen_config(rng, prop):
         "dyadic": dyadic, "period": period, "use_teleop_in_auto": rng.random() < 0.35, "fms": rng.random() < (0.6 if prop in ("C07", "C10", "C11") else 0.3),
         "components": comps, "robot_feedbacks": robot_fbs, "modes": modes, "split_robot": split,
         "auto_selector_initial": (rng.choice([m["name"] for m in modes] + ["nonsense"]) if modes and rng.random() < 0.25 else None),
-        "cap_waits": rng.choice([4, 8, 12, 20, 30, 45]),
+        "cap_waits": rng.choice([4, 8, 12, 20, 30, 45]) if tier != "thorough" else rng.choice([4, 8, 12, 20, 30, 45, 70, 100]),
         "boot_us": (rng.choice([0, 64, 6400]) * GRID_US) if dyadic else rng.choice([0, 181546, 5_000_003]),
     }
     return cfg
@@ -352,7 +352,7 @@ def generate(seed, prop, tier, index=0):
         if tier == "quick" and index < 700:
             return c07_enum_plan(seed, (index * 7919 + seed) % n)
     rng = random.Random(seed)
-    cfg = gen_config(rng, prop)
+    cfg = gen_config(rng, prop, tier)
     sites = all_sites(cfg)
     cap = cfg["cap_waits"]
     ops = []
@@ -391,6 +391,11 @@ def generate(seed, prop, tier, index=0):
     if cfg["modes"] and rng.random() < 0.4:
         add(rng.choice(["wait", "robot.autonomousInit", "robot.disabledPeriodic"]), rng.randint(1, 6),
             ["autosel", rng.choice([m["name"] for m in cfg["modes"]] + ["None", "bogus"])])
+    # ---- dashboard picks a mode in the chooser (takes effect at the next SmartDashboard update, i.e. robotPeriodic)
+    if cfg["modes"] and rng.random() < 0.35:
+        for _ in range(rng.choice([1, 1, 2])):
+            add(rng.choice(["wait", "wait", "robot.disabledPeriodic", "robot.teleopPeriodic", "robot.autonomousInit"]), rng.randint(1, max(2, cap // 2)),
+                ["select", rng.choice([m["name"] for m in cfg["modes"]] + ["None", "bogus"])])
     # ---- FMS cable plugged / unplugged at a wake-up
     if rng.random() < 0.15:
         add("wait", rng.randint(1, cap), ["ds", 1, rng.choice(["teleop", "auto"]), int(rng.random() < 0.5)])
@@ -758,6 +763,9 @@ class _Sim:
             elif k == "autosel":
                 self.autosel_pub.set(a[1])
                 self.fault("dashboard_auto_selector")
+            elif k == "select":
+                self.select_pub.set(a[1])
+                self.fault("dashboard_chooser_selection")
             elif k == "clobber" and at_wait:
                 # another NetworkTables client overwrites a feedback entry between two iterations
                 sub = self.fb_subs.get(a[1])
@@ -1023,6 +1031,7 @@ def execute(plan, trace=False):
     nt = ntcore.NetworkTableInstance.getDefault()
     sim.mode_sub = ntcore.StringTopic(nt.getTopic("/robot/mode")).subscribe("<unset>")
     sim.autosel_pub = ntcore.StringTopic(nt.getTopic("/SmartDashboard/Auto Selector")).publish()
+    sim.select_pub = ntcore.StringTopic(nt.getTopic("/SmartDashboard/Autonomous Mode/selected")).publish()
     if cfg.get("auto_selector_initial") is not None:
         sim.autosel_pub.set(cfg["auto_selector_initial"])
     fb_types = {}
